@@ -263,28 +263,28 @@ func (r *rw) post(c *astutil.Cursor) bool {
 				fmt.Fprintf(os.Stderr, "rw: note: %s: map range over non-ordered key type %s left unrewritten\n", r.pkg.Fset.Position(n.Pos()), m.Key())
 				return true
 			}
-			if n.Tok == token.ASSIGN {
-				r.errs = append(r.errs, fmt.Sprintf("%s: range over map with '=' is not supported", r.pkg.Fset.Position(n.Pos())))
-				return true
-			}
 			r.usesSch = true
 			tm := r.newTmp("m")
 			tk := r.newTmp("k")
+			tv := r.newTmp("v")
 			tok := r.newTmp("ok")
 			var body []ast.Stmt
 			keyUsed := n.Key != nil && !isBlank(n.Key)
 			valUsed := n.Value != nil && !isBlank(n.Value)
-			var vLhs ast.Expr = ast.NewIdent("_")
+			var vTmp ast.Expr = ast.NewIdent("_")
 			if valUsed {
-				vLhs = n.Value
+				vTmp = tv
 			}
-			// v, ok := m[k]; if !ok { continue }  (entries deleted during iteration are not produced)
+			// _vs_v, _vs_ok := m[_vs_k]; if !_vs_ok { continue }  (entries deleted during iteration are not produced)
 			body = append(body,
-				&ast.AssignStmt{Lhs: []ast.Expr{vLhs, tok}, Tok: token.DEFINE, Rhs: []ast.Expr{&ast.IndexExpr{X: tm, Index: tk}}},
+				&ast.AssignStmt{Lhs: []ast.Expr{vTmp, tok}, Tok: token.DEFINE, Rhs: []ast.Expr{&ast.IndexExpr{X: tm, Index: tk}}},
 				&ast.IfStmt{Cond: &ast.UnaryExpr{Op: token.NOT, X: tok}, Body: &ast.BlockStmt{List: []ast.Stmt{&ast.BranchStmt{Tok: token.CONTINUE}}}},
 			)
 			if keyUsed {
-				body = append([]ast.Stmt{define(n.Key, tk)}, body...)
+				body = append(body, &ast.AssignStmt{Lhs: []ast.Expr{n.Key}, Tok: n.Tok, Rhs: []ast.Expr{tk}})
+			}
+			if valUsed {
+				body = append(body, &ast.AssignStmt{Lhs: []ast.Expr{n.Value}, Tok: n.Tok, Rhs: []ast.Expr{tv}})
 			}
 			body = append(body, n.Body.List...)
 			loop := &ast.RangeStmt{Key: ast.NewIdent("_"), Value: tk, Tok: token.DEFINE, X: call(sched("MapKeys"), tm), Body: &ast.BlockStmt{List: body}}
